@@ -82,9 +82,11 @@ func Synopsis(scriptName, name string, args []SynopsisArg, options []*option.Opt
 		txt := ""
 		wrap := wrapFn(!opt.IsRequired, "[", "]")
 		switch opt.OptType {
-		case option.BoolType, option.StringType, option.IntType, option.Float64Type:
+		case option.BoolType, option.IncrementType,
+			option.StringType, option.IntType, option.Float64Type,
+			option.StringOptionalType, option.IntOptionalType, option.Float64OptionalType:
 			txt += wrap(opt.HelpSynopsis)
-		case option.StringRepeatType, option.IntRepeatType, option.StringMapType:
+		case option.StringRepeatType, option.IntRepeatType, option.Float64RepeatType, option.StringMapType:
 			if opt.IsRequired {
 				wrap = wrapFn(opt.IsRequired, "<", ">")
 			}
